@@ -123,7 +123,7 @@ def renderAll (st : DSt) (strict : Bool) (top : Str) : String :=
   let rs := translate cfg st.ctx defaultFuel top
   let tops := lex cfg top
   let reg : Reg := st.templates.map fun p => (p.1, lex cfg p.2)
-  let rt := renderTok cfg reg st.ctx defaultFuel tops
+  let rt := renderTok cfg strict reg st.ctx defaultFuel tops
   let tt : Option Str := match rt with | .ok (x, _) => some (printToks x) | .error _ => none
   let layersAgree := resText rs == tt
   let sreg : Option SReg := reg.foldr (fun p acc =>
@@ -132,7 +132,7 @@ def renderAll (st : DSt) (strict : Bool) (top : Str) : String :=
     | _, _ => none) (some [])
   let spec : Option (Except Err Str) :=
     match parse tops, sreg with
-    | some t, some sr => some (renderSpec cfg sr st.ctx defaultFuel t)
+    | some t, some sr => some (renderSpec cfg strict sr st.ctx defaultFuel t)
     | _, _ => none
   let specAgree : Option Bool := spec.map fun r =>
     match tt, r with
